@@ -133,7 +133,7 @@ func c14StepText(s c14Step) string {
 	return s.state + " | " + strings.Join(as, " ; ")
 }
 
-const c14SweepWD = 10 * time.Second
+const c14SweepWD = 30 * time.Second
 
 // c14RunStep returns "" or a description of the command that never completed.
 func c14RunStep(idx int, s c14Step) string {
@@ -186,7 +186,7 @@ func c14RunStep(idx int, s c14Step) string {
 		if len(held) == 0 {
 			return ""
 		}
-		if time.Since(t0) > 10*time.Second {
+		if time.Since(t0) > 40*time.Second {
 			verifsync.ForgetHeld()
 			return fmt.Sprintf("LEAK step %d (%s): still held after every session logged out and the server was closed:\n%s",
 				idx, c14StepText(s), strings.Join(held, "\n"))
